@@ -6,6 +6,7 @@
 -/
 import PydapModel.Handler
 import Proofs.Handler
+import Proofs.Arrayterator
 namespace Pydap.Handler
 open Pydap
 
